@@ -47,6 +47,7 @@ type Violation struct {
 	msg       string
 	model     map[string]uint64
 	hvals     []NondetVal
+	env       []FSPre
 	decisions []Dec
 	entry     string
 	bounds    map[string]int64
@@ -236,6 +237,18 @@ func (ex *Exec) mkNondet(s Sort, name string) *Term {
 	return v
 }
 
+func (ex *Exec) envOf(m map[string]uint64) []FSPre {
+	return ex.buildEnv(func(t *Term) uint64 {
+		if t.IsConst() {
+			return t.val
+		}
+		if t.op == OpVar {
+			return m[t.name]
+		}
+		return m[t.ref()]
+	})
+}
+
 func (ex *Exec) harnessVals(m map[string]uint64) []NondetVal {
 	out := make([]NondetVal, 0, len(ex.hnames))
 	for i, n := range ex.hnames {
@@ -262,7 +275,7 @@ func (ex *Exec) violation(kind, msg string, cond *Term) {
 	if cond != nil && cond.IsFalse() {
 		return
 	}
-	res, m := ex.sol.CheckModel(cond, ex.nondets)
+	res, m := ex.sol.CheckModel(cond, append(append([]*Term{}, ex.nondets...), ex.envTerms()...))
 	if res == "unsat" {
 		if cond == nil {
 			fmt.Println("VIOLATION-CHECK unsat on path end:", kind, msg, ex.decisions)
@@ -278,7 +291,7 @@ func (ex *Exec) violation(kind, msg string, cond *Term) {
 	for k := range ex.reached {
 		rl = append(rl, k)
 	}
-	ex.viols = append(ex.viols, Violation{kind: kind, msg: msg, model: m, hvals: ex.harnessVals(m),
+	ex.viols = append(ex.viols, Violation{kind: kind, msg: msg, model: m, hvals: ex.harnessVals(m), env: ex.envOf(m),
 		decisions: append([]Dec(nil), ex.decisions...), reached: rl})
 }
 
@@ -708,6 +721,9 @@ func (ex *Exec) indexAddr(x Value, idx *Term, idxT types.Type) Value {
 		if a.arr.subs != nil {
 			return Ptr{loc: a.arr.subs[int(ex.concretize(abs))]}
 		}
+		if !abs.IsConst() && !mergeable(a.arr.elemT) {
+			abs = ex.ts.Const(64, ex.concretize(abs)) // case split: strings, slices, interfaces cannot be ite-merged
+		}
 		return Ptr{arr: a.arr, idx: abs}
 	case Ptr:
 		arr, ok := a.loc.(*ArrayObj)
@@ -717,6 +733,9 @@ func (ex *Exec) indexAddr(x Value, idx *Term, idxT types.Type) Value {
 		ex.boundsCheck(idx, ex.ts.Const(64, uint64(arr.n)), "index")
 		if arr.subs != nil {
 			return Ptr{loc: arr.subs[int(ex.concretize(idx))]}
+		}
+		if !idx.IsConst() && !mergeable(arr.elemT) {
+			idx = ex.ts.Const(64, ex.concretize(idx))
 		}
 		return Ptr{arr: arr, idx: idx}
 	}
@@ -743,7 +762,11 @@ func (ex *Exec) makeSlice(elemT types.Type, ln, cp *Term, lt types.Type) Value {
 		}
 		ex.assume(small)
 	}
+	sameLen := ln == cp
 	c := ex.concretize(cp)
+	if sameLen {
+		ln = ex.ts.Const(64, c)
+	}
 	if c > 1<<24 {
 		panic(goPanic{"makeslice: alloc bomb"})
 	}
@@ -1608,4 +1631,13 @@ func (ex *Exec) lookup(fr *frame, i *ssa.Lookup) Value {
 		return ex.strIndex(m, idx)
 	}
 	panic(unsupported(fmt.Sprintf("Lookup on %T", x)))
+}
+
+// mergeable: element types whose values can be combined with ite (scalars and pointers).
+func mergeable(t types.Type) bool {
+	if sortOf(t) >= 0 {
+		return true
+	}
+	_, ok := t.Underlying().(*types.Pointer)
+	return ok
 }
